@@ -94,8 +94,9 @@ Fixpoint fits (B w : Z) (e : expr) : bool :=
   | Sub a b | Mul a b | Add a b => fits B w a && fits B w b
   end.
 
-Definition zeval := eval Z.sub Z.mul Z.add.
-Definition weval (w : Z) := eval (wsub w) (wmul w) (wadd w).
+(* notations, not definitions: the kernel must never have to choose between unfolding these and unfolding [eval] on a big tree *)
+Notation zeval := (eval Z.sub Z.mul Z.add).
+Notation weval w := (eval (wsub w) (wmul w) (wadd w)).
 
 Lemma bnd_nonneg : forall B e, 0 <= B -> 0 <= bnd B e.
 Proof. intros B e HB. induction e; simpl; lia. Qed.
@@ -105,16 +106,15 @@ Lemma zeval_bound : forall B rho, 0 <= B -> (forall i, Z.abs (rho i) <= B) ->
 Proof.
   intros B rho HB Hrho. induction e; simpl.
   - apply Hrho.
-  - fold (zeval rho e1) (zeval rho e2). lia.
-  - fold (zeval rho e1) (zeval rho e2). rewrite Z.abs_mul.
+  - lia.
+  - rewrite Z.abs_mul.
     pose proof (Z.abs_nonneg (zeval rho e1)). pose proof (Z.abs_nonneg (zeval rho e2)). nia.
-  - fold (zeval rho e1) (zeval rho e2). lia.
+  - lia.
 Qed.
 
 Lemma wrap_id : forall w x, Z.abs x < 2 ^ w -> wrap w x = x.
 Proof.
-  intros w x H. unfold wrap. rewrite Z.mod_small by (split; [apply Z.abs_nonneg | exact H]).
-  rewrite Z.mul_comm. apply Z.abs_sgn.
+  intros w x H. unfold wrap. apply Z.ltb_lt in H. rewrite H. reflexivity.
 Qed.
 
 Lemma weval_zeval : forall B w rho, 0 <= B -> (forall i, Z.abs (rho i) <= B) ->
@@ -122,18 +122,15 @@ Lemma weval_zeval : forall B w rho, 0 <= B -> (forall i, Z.abs (rho i) <= B) ->
 Proof.
   intros B w rho HB Hrho. induction e; simpl; intros Hf.
   - reflexivity.
-  - apply andb_prop in Hf. destruct Hf as [Hb Hf]. apply andb_prop in Hf. destruct Hf as [H1 H2].
-    fold (weval w rho e1) (weval w rho e2). rewrite IHe1, IHe2 by assumption.
+  - apply andb_prop in Hf. destruct Hf as [Hb Hf]. apply andb_prop in Hf. destruct Hf as [H1 H2]. rewrite IHe1, IHe2 by assumption.
     unfold wsub. apply wrap_id. apply Z.ltb_lt in Hb.
-    pose proof (zeval_bound B rho HB Hrho (Sub e1 e2)) as Hz. simpl in Hz. fold (zeval rho e1) (zeval rho e2) in *. lia.
-  - apply andb_prop in Hf. destruct Hf as [Hb Hf]. apply andb_prop in Hf. destruct Hf as [H1 H2].
-    fold (weval w rho e1) (weval w rho e2). rewrite IHe1, IHe2 by assumption.
+    pose proof (zeval_bound B rho HB Hrho (Sub e1 e2)) as Hz. simpl in Hz. lia.
+  - apply andb_prop in Hf. destruct Hf as [Hb Hf]. apply andb_prop in Hf. destruct Hf as [H1 H2]. rewrite IHe1, IHe2 by assumption.
     unfold wmul. apply wrap_id. apply Z.ltb_lt in Hb.
-    pose proof (zeval_bound B rho HB Hrho (Mul e1 e2)) as Hz. simpl in Hz. fold (zeval rho e1) (zeval rho e2) in *. lia.
-  - apply andb_prop in Hf. destruct Hf as [Hb Hf]. apply andb_prop in Hf. destruct Hf as [H1 H2].
-    fold (weval w rho e1) (weval w rho e2). rewrite IHe1, IHe2 by assumption.
+    pose proof (zeval_bound B rho HB Hrho (Mul e1 e2)) as Hz. simpl in Hz. lia.
+  - apply andb_prop in Hf. destruct Hf as [Hb Hf]. apply andb_prop in Hf. destruct Hf as [H1 H2]. rewrite IHe1, IHe2 by assumption.
     unfold wadd. apply wrap_id. apply Z.ltb_lt in Hb.
-    pose proof (zeval_bound B rho HB Hrho (Add e1 e2)) as Hz. simpl in Hz. fold (zeval rho e1) (zeval rho e2) in *. lia.
+    pose proof (zeval_bound B rho HB Hrho (Add e1 e2)) as Hz. simpl in Hz. lia.
 Qed.
 
 Lemma fits_nodes : forall B w e, fits B w e = true -> forall n, In n (nodes e) -> bnd B n < 2 ^ w.
@@ -266,3 +263,101 @@ Proof. intros. unfold insphere_det, insphere_shape. ring. Qed.
 Lemma insphere_swap_de : forall ax ay az bx by_ bz cx cy cz dx dy dz ex ey ez,
   insphere_det ax ay az bx by_ bz cx cy cz ex ey ez dx dy dz = - insphere_det ax ay az bx by_ bz cx cy cz dx dy dz ex ey ez.
 Proof. intros. unfold insphere_det, insphere_shape. ring. Qed.
+
+(* all permutations at once: explicit lists of the 24 / 120 permutations *)
+Definition perms4 : list (list nat) := Eval vm_compute in perms [0; 1; 2; 3]%nat.
+Definition perms5 : list (list nat) := Eval vm_compute in perms [0; 1; 2; 3; 4]%nat.
+Lemma perms4_eq : perms [0; 1; 2; 3]%nat = perms4. Proof. vm_compute. reflexivity. Qed.
+Lemma perms5_eq : perms [0; 1; 2; 3; 4]%nat = perms5. Proof. vm_compute. reflexivity. Qed.
+
+Definition orient_det_l (l : list pt) : Z := orient_l (orient_mant orient_det) l.
+Definition insphere_det_l (l : list pt) : Z := insphere_l (insphere_mant insphere_det) l.
+Definition pt0 : pt := mkPt 0 0 0.
+
+Ltac perm_goal :=
+  cbv [permute map nth parity inversions inversions_with Nat.ltb Nat.leb Nat.even Nat.add
+       orient_det_l insphere_det_l orient_l insphere_l nth_pt orient_mant insphere_mant];
+  repeat match goal with |- context [get_mantissa ?x] => generalize (get_mantissa x); intro end;
+  unfold orient_det, insphere_det, orient_shape, insphere_shape; ring.
+
+Lemma orient_perm_list : forall a b c d,
+  Forall (fun p => orient_det_l (permute pt0 [a; b; c; d] p) = parity p * orient_det_l [a; b; c; d]) (perms [0; 1; 2; 3]%nat).
+Proof.
+  intros. rewrite perms4_eq. unfold perms4.
+  repeat (apply Forall_cons; [perm_goal |]). apply Forall_nil.
+Qed.
+
+Lemma insphere_perm_list : forall a b c d e,
+  Forall (fun p => insphere_det_l (permute pt0 [a; b; c; d; e] p) = parity p * insphere_det_l [a; b; c; d; e]) (perms [0; 1; 2; 3; 4]%nat).
+Proof.
+  intros. rewrite perms5_eq. unfold perms5.
+  repeat (apply Forall_cons; [perm_goal |]). apply Forall_nil.
+Qed.
+
+(* [perms l] contains every rearrangement of l *)
+Lemma insert_all_in : forall {A} (x : A) l1 l2, In (l1 ++ x :: l2) (insert_all x (l1 ++ l2)).
+Proof.
+  induction l1; intros; simpl.
+  - destruct l2; simpl; auto.
+  - right. apply in_map. apply IHl1.
+Qed.
+
+Lemma perms_complete : forall {A} (l l' : list A), Permutation l' l -> In l' (perms l).
+Proof.
+  induction l; intros l' H.
+  - apply Permutation_sym, Permutation_nil in H. subst. simpl. auto.
+  - assert (Hin : In a l') by (apply (Permutation_in a (Permutation_sym H)); left; reflexivity).
+    apply in_split in Hin. destruct Hin as [l1 [l2 ->]].
+    apply Permutation_sym, Permutation_cons_app_inv, Permutation_sym in H.
+    simpl. apply in_flat_map. exists (l1 ++ l2). split; [apply IHl; exact H | apply insert_all_in].
+Qed.
+
+Theorem orient_perm_any : forall a b c d p, Permutation p [0; 1; 2; 3]%nat ->
+  orient3d_exact (nth_pt (permute pt0 [a; b; c; d] p) 0) (nth_pt (permute pt0 [a; b; c; d] p) 1)
+                 (nth_pt (permute pt0 [a; b; c; d] p) 2) (nth_pt (permute pt0 [a; b; c; d] p) 3)
+  = parity p * orient3d_exact a b c d.
+Proof.
+  intros a b c d p Hp. rewrite !orient3d_exact_sgn.
+  pose proof (orient_perm_list a b c d) as H. rewrite Forall_forall in H.
+  specialize (H p (perms_complete _ _ Hp)).
+  unfold orient_det_l, orient_l in H. rewrite H. unfold nth_pt at 1 2 3 4. cbn [nth].
+  rewrite Z.sgn_mul. f_equal. unfold parity. destruct (Nat.even _); reflexivity.
+Qed.
+
+Theorem insphere_perm_any : forall a b c d e p, Permutation p [0; 1; 2; 3; 4]%nat ->
+  insphere_exact (nth_pt (permute pt0 [a; b; c; d; e] p) 0) (nth_pt (permute pt0 [a; b; c; d; e] p) 1)
+                 (nth_pt (permute pt0 [a; b; c; d; e] p) 2) (nth_pt (permute pt0 [a; b; c; d; e] p) 3)
+                 (nth_pt (permute pt0 [a; b; c; d; e] p) 4)
+  = parity p * insphere_exact a b c d e.
+Proof.
+  intros a b c d e p Hp. rewrite !insphere_exact_sgn.
+  pose proof (insphere_perm_list a b c d e) as H. rewrite Forall_forall in H.
+  specialize (H p (perms_complete _ _ Hp)).
+  unfold insphere_det_l, insphere_l in H. rewrite H. unfold nth_pt at 1 2 3 4 5. cbn [nth].
+  rewrite Z.sgn_mul. f_equal. unfold parity. destruct (Nat.even _); reflexivity.
+Qed.
+
+(* the transpositions, for the functions of the header *)
+Theorem orient_transpositions : forall a b c d,
+  orient3d_exact b a c d = - orient3d_exact a b c d /\
+  orient3d_exact a c b d = - orient3d_exact a b c d /\
+  orient3d_exact a b d c = - orient3d_exact a b c d.
+Proof.
+  intros. rewrite !orient3d_exact_sgn. unfold orient_mant. repeat split.
+  - rewrite orient_swap_ab. apply Z.sgn_opp.
+  - rewrite orient_swap_bc. apply Z.sgn_opp.
+  - rewrite orient_swap_cd. apply Z.sgn_opp.
+Qed.
+
+Theorem insphere_transpositions : forall a b c d e,
+  insphere_exact b a c d e = - insphere_exact a b c d e /\
+  insphere_exact a c b d e = - insphere_exact a b c d e /\
+  insphere_exact a b d c e = - insphere_exact a b c d e /\
+  insphere_exact a b c e d = - insphere_exact a b c d e.
+Proof.
+  intros. rewrite !insphere_exact_sgn. unfold insphere_mant. repeat split.
+  - rewrite insphere_swap_ab. apply Z.sgn_opp.
+  - rewrite insphere_swap_bc. apply Z.sgn_opp.
+  - rewrite insphere_swap_cd. apply Z.sgn_opp.
+  - rewrite insphere_swap_de. apply Z.sgn_opp.
+Qed.
